@@ -4,6 +4,7 @@
 pub mod frames;
 pub mod gen;
 pub mod scen_gate;
+pub mod scen_multi;
 pub mod ledger;
 pub mod scen_conn;
 pub mod scenarios;
